@@ -4,6 +4,7 @@ import (
 	"encoding/binary"
 	"fmt"
 	"io"
+	"math"
 )
 
 // RangeNamespaceDataIDV0Size defines the size of the RangeNamespaceDataIDV0Size in bytes,
@@ -22,6 +23,9 @@ func NewRangeNamespaceDataIDV0(
 	rngData, err := NewRangeNamespaceDataID(edsID, from, to, odsSize)
 	if err != nil {
 		return RangeNamespaceDataIDV0{}, err
+	}
+	if to > math.MaxUint16 {
+		return RangeNamespaceDataIDV0{}, fmt.Errorf("%w: To: %d does not fit the 16-bit V0 encoding", ErrInvalidID, to)
 	}
 	return RangeNamespaceDataIDV0{RangeNamespaceDataID: rngData}, nil
 }
@@ -82,6 +86,9 @@ func (rngid RangeNamespaceDataIDV0) WriteTo(w io.Writer) (int64, error) {
 // appendTo helps in constructing the binary representation of RangeNamespaceDataIDV0
 // by appending all encoded fields.
 func (rngid RangeNamespaceDataIDV0) appendTo(data []byte) ([]byte, error) {
+	if rngid.From < 0 || rngid.From > math.MaxUint16 || rngid.To < 0 || rngid.To > math.MaxUint16 {
+		return nil, fmt.Errorf("%w: range [%d,%d) does not fit the 16-bit V0 encoding", ErrInvalidID, rngid.From, rngid.To)
+	}
 	data, err := rngid.AppendBinary(data)
 	if err != nil {
 		return nil, fmt.Errorf("appending EdsID: %w", err)
